@@ -970,18 +970,34 @@ double sexp_to_double (sexp ctx, sexp x) {
 
 #if SEXP_USE_COMPLEX
 
+static sexp sexp_complex_copy_part (sexp ctx, sexp x) {
+  sexp_gc_var1(res);
+  if (sexp_flonump(x))
+    return sexp_make_flonum(ctx, sexp_flonum_value(x));
+  if (sexp_bignump(x))
+    return sexp_copy_bignum(ctx, NULL, x, 0);
+#if SEXP_USE_RATIOS
+  if (sexp_ratiop(x) && sexp_bignump(sexp_ratio_numerator(x))) {
+    sexp_gc_preserve1(ctx, res);
+    res = sexp_copy_bignum(ctx, NULL, sexp_ratio_numerator(x), 0);
+    res = sexp_make_ratio(ctx, res, sexp_ratio_denominator(x));
+    sexp_gc_release1(ctx);
+    return res;
+  }
+  if (sexp_ratiop(x))
+    return sexp_make_ratio(ctx, sexp_ratio_numerator(x), sexp_ratio_denominator(x));
+#endif
+  return x;
+}
+
+/* the parts of the copy are negated in place by the callers, so they */
+/* must not be shared with the original */
 static sexp sexp_complex_copy (sexp ctx, sexp a) {
   sexp_gc_var1(res);
   sexp_gc_preserve1(ctx, res);
   res = sexp_make_complex(ctx, sexp_complex_real(a), sexp_complex_imag(a));
-  if (sexp_flonump(sexp_complex_real(a)))
-    sexp_complex_real(a) = sexp_make_flonum(ctx, sexp_flonum_value(sexp_complex_real(a)));
-  else if (sexp_bignump(sexp_complex_real(a)))
-    sexp_complex_real(a) = sexp_copy_bignum(ctx, NULL, sexp_complex_real(a), 0);
-  if (sexp_flonump(sexp_complex_imag(a)))
-    sexp_complex_imag(a) = sexp_make_flonum(ctx, sexp_flonum_value(sexp_complex_imag(a)));
-  else if (sexp_bignump(sexp_complex_imag(a)))
-    sexp_complex_imag(a) = sexp_copy_bignum(ctx, NULL, sexp_complex_imag(a), 0);
+  sexp_complex_real(res) = sexp_complex_copy_part(ctx, sexp_complex_real(a));
+  sexp_complex_imag(res) = sexp_complex_copy_part(ctx, sexp_complex_imag(a));
   sexp_gc_release1(ctx);
   return res;
 }
